@@ -270,6 +270,8 @@ class Machine(object):
         """parse a document of a (possibly registered) name in a version: registered there -> that class; else refused / dict."""
         import stix2
         ver, name, kind = op["ver"], op["name"], op["kind"]
+        if kind in ("marking", "extension"):
+            return self.step_parse_other_kind(op)
         if kind not in ("object", "observable") or (kind == "observable" and ver == "2.0"):
             return
         if name_rule(name, ver, kind) == "illegal":
@@ -294,6 +296,29 @@ class Machine(object):
             r2, e2 = core.guarded(stix2.parse, d2, version=ov, allow_custom=False)
             if e2 is None and not isinstance(r2, dict):
                 self.fail("registration-leaks-across-versions", "%r registered for %s also parses under %s as %s" % (name, ver, ov, type(r2).__name__))
+
+    def step_parse_other_kind(self, op):
+        """Registration is per kind: a name registered (or built in) only as a marking or extension type is not an object type, so a
+        top-level document of that type is treated exactly like one of a never-registered type (refused; kept as a dict when custom
+        content is allowed)."""
+        import stix2
+        ver, name = op["ver"], op["name"]
+        if any(name in self.base[ver][c] or (ver, c, name) in self.model for c in ("objects", "observables")):
+            return
+        if not any(name in self.base[ver][c] or (ver, c, name) in self.model for c in ("markings", "extensions")):
+            return
+        doc = sample_doc(ver, "object", name, [("prop_a", "string-required")])
+        twin = sample_doc(ver, "object", "x-verif-never-registered", [("prop_a", "string-required")])
+        for allow in (False, True):
+            res, exc = core.guarded(stix2.parse, copy.deepcopy(doc), version=ver, allow_custom=allow)
+            ref, rexc = core.guarded(stix2.parse, copy.deepcopy(twin), version=ver, allow_custom=allow)
+            same = (type(exc) is type(rexc)) and (exc is not None or (isinstance(res, dict) and isinstance(ref, dict)))
+            if not same:
+                self.fail("marking-or-extension-name-dispatched-as-object",
+                          "parse(type=%r, version=%s, allow_custom=%s) -> %s, but a never-registered type name -> %s (%r is registered only as %s)" % (
+                              name, ver, allow, core.fmt_exc(exc) if exc else type(res).__name__, core.fmt_exc(rexc) if rexc else type(ref).__name__, name,
+                              [c for c in ("markings", "extensions") if name in self.base[ver][c] or (ver, c, name) in self.model]))
+                return
 
     def invariant(self, where):
         from stix2 import registry
@@ -384,8 +409,9 @@ def case_strategy(draw):
     ops = []
     for _ in range(draw(st.integers(2, 7))):
         if ops and draw(st.integers(0, 2)) == 0:
-            ops.append({"op": "parse", "kind": draw(st.sampled_from(["object", "observable"])), "ver": draw(st.sampled_from(["2.0", "2.1"])),
-                        "name": draw(st.sampled_from(sorted(used) + VALID_NAMES[:2] + ["never-registered"]))})
+            ops.append({"op": "parse", "kind": draw(st.sampled_from(["object", "object", "observable", "observable", "marking", "extension"])),
+                        "ver": draw(st.sampled_from(["2.0", "2.1"])),
+                        "name": draw(st.sampled_from(sorted(used) + VALID_NAMES[:2] + ["never-registered", "statement", "tlp", "archive-ext", "ntfs-ext"]))})
         else:
             ops.append(draw(reg_op(used)))
     return {"ops": ops}
@@ -404,7 +430,7 @@ def run(ctx):
                 "sequence, built-in names of the same and of other categories, and strings probing the naming rules (case, underscore, "
                 "leading digit/hyphen, doubled/trailing hyphens, lengths 1/2/251, non-ASCII; invalid strings capped at 18 chars except the "
                 "251-char probe), property lists probing the 2.1 property-name rules and the _ref/_refs typing rule; interleaved with parses "
-                "in both versions and, after each successful registration, a round-trip / required-property / versioning / deterministic-id "
+                "in both versions (also of names that are registered / built in only as marking or extension types, as top-level object type) and, after each successful registration, a round-trip / required-property / versioning / deterministic-id "
                 "pass; built-in dispatch is re-checked after every step. Non-trivial = history with >= 1 accepted and >= 1 refused "
                 "registration followed by a dependent parse; distinct = distinct history.")
     ctx.assumptions = ["naming oracle is one-directional: clearly illegal names must be refused, clearly legal ones accepted, the grey zone (leading "
@@ -417,6 +443,7 @@ def run(ctx):
         regs = [o for o in case["ops"] if o["op"] == "register"]
         cl = ["kind:%s/%s" % (o["kind"], o["ver"]) for o in regs] + ["nameclass:" + name_rule(o["name"], o["ver"], o["kind"]) for o in regs]
         cl += ["has-parse"] if any(o["op"] == "parse" for o in case["ops"]) else []
+        cl += ["parse-kind:" + o["kind"] for o in case["ops"] if o["op"] == "parse"]
         ctx.note(json.loads(json.dumps(case)), len(regs) >= 2 and any(o["op"] == "parse" for o in case["ops"]), cl)
         ctx.handle(json.loads(json.dumps(case)), fails)
 
